@@ -126,18 +126,14 @@ def ref_match(q, f, dn):
 
 
 def ref_less_nested(c, t):
-    a, b = tokens(c), tokens(t)
-    if len(a) > len(b):
-        return z3.BoolVal(False)
-    tail = b[len(b) - len(a):]
-    conds = []
-    for x, y in zip(a, tail):
-        if x == '' or y == '':
-            if not (isinstance(x, str) and isinstance(y, str) and x == y):
-                return z3.BoolVal(False)
-            continue
-        conds.append(teq(x, y))
-    return z3.And(conds + [z3.BoolVal(True)])
+    """c is t or a less nested form of t: same name, namespace and group components of c are suffixes of t's."""
+    (cns, cgr, cnm), (tns, tgr, tnm) = c, t
+
+    def suffix(a, b):
+        if len(a) > len(b):
+            return z3.BoolVal(False)
+        return comps_eq(a, b[len(b) - len(a):])
+    return z3.And(teq(cnm, tnm), suffix(list(cns), list(tns)), suffix(list(cgr), list(tgr)))
 
 
 def run_case(case, tier):
